@@ -547,6 +547,9 @@ func runC08(p *load.Program, r *oblig.Report) {
 	c07PutDiscipline(p, r, "C08.R4 a batch is flushed once: enqueued while current, under the partition mutex")
 	// a closed batch is produced at once: the first attempt is not preceded by the retry back-off (the loop shape of C01.R3)
 	shareRules(r, "C08", "C08.R6 the first produce attempt of a closed batch is not delayed", func(sub *oblig.Report) { c01RetryLoop(p, sub) })
+	// a batch (hence a request) only holds messages that were assigned to its partition: the message added under index
+	// i is msgs[i] (C01.R5)
+	shareRules(r, "C08", "C08.R7 a request carries only the messages assigned to its partition", func(sub *oblig.Report) { c01RequestIdentity(p, sub) })
 }
 
 func c08Tables(p *load.Program, r *oblig.Report) {
@@ -1049,6 +1052,18 @@ func runC01(p *load.Program, r *oblig.Report) {
 	c01ProduceResponse(p, r)
 	c01Temporary(p, r)
 	c07PutDiscipline(p, r, "C01.R4 a batch is produced once: enqueued while current, under the partition mutex")
+	// the acknowledgement is read from a Produce response laid out as Kafka defines it: a field out of place makes an
+	// acknowledged response fail to decode, which the Writer takes for a transient error and sends the batch again
+	sub := oblig.NewReport("C01", r.Tier)
+	c04Schemas(p, sub)
+	for _, o := range sub.Obs {
+		if !strings.Contains(o.Construct, "Produce") && !strings.Contains(o.Construct, "produce") {
+			continue
+		}
+		o2 := *o
+		o2.Rule = "C01.R8 the produce request and response have the Kafka wire layout (" + strings.SplitN(o.Rule, " ", 2)[0] + ")"
+		r.Add(&o2)
+	}
 }
 
 func c01FanOut(p *load.Program, r *oblig.Report) {
